@@ -134,6 +134,7 @@ where
                 budgets: std::cell::Cell::new((100_000, 100_000)),
                 last_steps: std::cell::Cell::new(0),
                 caches: Vec::new(),
+                pending: RefCell::new(None),
             };
             // make sure the slow path is used: hold more guards than there are fast slots
             if t == 0 && !S::NAME.starts_with("fallback") {
